@@ -229,12 +229,90 @@ fn opts() -> GenOpts {
     GenOpts { modules: (1, 3), assigns: (1, 10), max_depth: 2, max_comps: 4, ..GenOpts::default() }
 }
 
+/// Hand-written inputs with notation grammar G does not produce (user-defined / contents / inner-type constraints, classes
+/// with WITH SYNTAX, objects and object sets, table constraints, parameter lists, EXPORTS / IMPORTS): the lexer scans several
+/// of these with its balanced-delimiter helper instead of token by token. One string per assignment (= one extent).
+const TEMPLATES: &[&[&str]] = &[
+    &[
+        "Mt1 DEFINITIONS AUTOMATIC TAGS ::= BEGIN",
+        "Sealed ::= OCTET STRING (CONSTRAINED BY { INTEGER })",
+        "Wrapped ::= OCTET STRING (CONTAINING INTEGER)",
+        "Inner ::= SEQUENCE { a INTEGER OPTIONAL, b BOOLEAN } (WITH COMPONENTS { ..., a PRESENT })",
+        "Sealed2 ::= SEQUENCE { f OCTET STRING (CONSTRAINED BY { BOOLEAN, INTEGER }), g NULL }",
+        "Last ::= INTEGER (0..5)",
+        "END",
+    ],
+    &[
+        "Mt2 DEFINITIONS AUTOMATIC TAGS ::= BEGIN",
+        "CLQ ::= CLASS { &id INTEGER UNIQUE, &Type } WITH SYNTAX { &Type IDENTIFIED BY &id }",
+        "oa CLQ ::= { INTEGER IDENTIFIED BY 1 }",
+        "SetQ CLQ ::= { oa | { BOOLEAN IDENTIFIED BY 2 } }",
+        "Holder ::= SEQUENCE { id CLQ.&id ({SetQ}), val CLQ.&Type ({SetQ}{@id}) }",
+        "Tail ::= BOOLEAN",
+        "END",
+    ],
+    &[
+        "Mt3 DEFINITIONS IMPLICIT TAGS ::= BEGIN",
+        "EXPORTS Pair, limit;",
+        "IMPORTS Ext, ext-value FROM Mt3b;",
+        "Pair {First, Second} ::= SEQUENCE { a First, b Second }",
+        "Bounded {INTEGER: lo, INTEGER: hi} ::= INTEGER (lo..hi)",
+        "Use ::= Pair {INTEGER, Ext}",
+        "Small ::= Bounded {0, 15}",
+        "limit INTEGER ::= 5",
+        "END",
+        "Mt3b DEFINITIONS AUTOMATIC TAGS ::= BEGIN",
+        "Ext ::= ENUMERATED { red, green, ..., blue }",
+        "ext-value Ext ::= green",
+        "END",
+    ],
+];
+
+/// tokens, line ends and extents of a template (tokenised with the harness's own X.680 tokenizer)
+fn template_tokens(t: usize) -> (Vec<String>, Vec<usize>, Vec<(usize, usize, usize, usize)>) {
+    let mut tokens = vec![];
+    let mut extents = vec![];
+    let mut module = 0;
+    for (ai, line) in TEMPLATES[t].iter().enumerate() {
+        let first = tokens.len();
+        let lx = crate::tok::tokenize(line);
+        tokens.extend(lx.toks.iter().map(|k| k.text(line).to_string()));
+        extents.push((module, ai, first, tokens.len() - 1));
+        if *line == "END" {
+            module += 1;
+        }
+    }
+    let line_ends = extents.iter().map(|e| e.3 + 1).collect();
+    (tokens, line_ends, extents)
+}
+
+struct Toks {
+    tokens: Vec<String>,
+    extents: Vec<(usize, usize, usize, usize)>,
+}
+
 fn check_input(seed: u64, idx: u64, tmpdir: &std::path::Path, rep: &mut Report, max_corruptions: usize) {
+    check_input_t(seed, idx, None, tmpdir, rep, max_corruptions)
+}
+
+fn check_input_t(seed: u64, idx: u64, template: Option<usize>, tmpdir: &std::path::Path, rep: &mut Report, max_corruptions: usize) {
     let mut rng = Rng::for_case(seed, 17, idx);
-    let set = gen::random_set(seed, 1700, idx, &opts());
-    let r = set.render();
-    // line ends from the default rendering: after every extent
-    let line_ends: Vec<usize> = r.extents.iter().map(|e| e.3 + 1).collect();
+    let (r, line_ends) = match template {
+        Some(t) => {
+            let (tokens, line_ends, extents) = template_tokens(t);
+            (Toks { tokens, extents }, line_ends)
+        }
+        None => {
+            let set = gen::random_set(seed, 1700, idx, &opts());
+            let r = set.render();
+            // line ends from the default rendering: after every extent
+            let line_ends: Vec<usize> = r.extents.iter().map(|e| e.3 + 1).collect();
+            (Toks { tokens: r.tokens, extents: r.extents }, line_ends)
+        }
+    };
+    if template.is_some() {
+        rep.count("template_inputs", 1);
+    }
     let style = (idx % 6) as u8;
     // baseline must compile (otherwise the corruption is not the first malformation)
     let lrng = Rng::for_case(seed, 1717, idx);
@@ -311,7 +389,7 @@ fn check_input(seed: u64, idx: u64, tmpdir: &std::path::Path, rep: &mut Report, 
                     rep.violations.push(Violation {
                         sig,
                         what: format!("{detail} :: {}", b.desc),
-                        replay: json!({"seed": seed, "idx": idx, "corruption": format!("{c:?}"), "as_file": as_file, "input": b.text,
+                        replay: json!({"seed": seed, "idx": idx, "template": template, "corruption": format!("{c:?}"), "as_file": as_file, "input": b.text,
                             "bounds": [b.lo, b.hi], "reported": {"offset": o.offset, "line": o.line, "column": o.column, "src_file": o.src_file},
                             "display": o.display, "contextualize": o.context}),
                     });
@@ -324,16 +402,16 @@ fn check_input(seed: u64, idx: u64, tmpdir: &std::path::Path, rep: &mut Report, 
 pub fn run(ctx: &Ctx) -> Report {
     let mut rep = Report::new(
         "fault_enumeration",
-        "inputs: grammar-G module sets (1..3 modules, 1..10 assignments each, depth<=2) laid out with LF / CRLF / comments; faults: for every token position (exhaustive for inputs whose 4*tokens corruptions fit the per-input budget, sampled otherwise) insertion of a character that starts no ASN.1 token (? $ ~ U+0001), replacement by such a character, deletion, replacement by another token; every 8th corrupted input is given as a file path, the rest as literals. Non-trivial = the compiler returned a syntax error and all position/rendering facts were judged; distinct by corrupted text.",
+        "inputs: grammar-G module sets (1..3 modules, 1..10 assignments each, depth<=2) laid out with LF / CRLF / comments, plus three hand-written module texts with notation G does not produce (CONSTRAINED BY, CONTAINING, WITH COMPONENTS, CLASS .. WITH SYNTAX, objects, object sets, table constraints, parameter lists, EXPORTS, IMPORTS) in all six layouts with every token position corrupted; faults: for every token position (exhaustive for inputs whose 4*tokens corruptions fit the per-input budget, sampled otherwise) insertion of a character that starts no ASN.1 token (? $ ~ U+0001), replacement by such a character, deletion, replacement by another token; every 8th corrupted input is given as a file path, the rest as literals. Non-trivial = the compiler returned a syntax error and all position/rendering facts were judged; distinct by corrupted text.",
     );
-    rep.must_observe = vec!["positions_checked".into(), "given_as_file".into()];
+    rep.must_observe = vec!["positions_checked".into(), "given_as_file".into(), "template_inputs".into()];
     rep.assumptions = vec!["token positions known by construction (own layout)".into(), "message shapes of Display/contextualize parsed by fixed patterns".into()];
     let tmp = std::env::temp_dir().join(format!("vcheck-c17-{}", std::process::id()));
     let _ = std::fs::create_dir_all(&tmp);
     if let Some(path) = &ctx.replay {
         let doc: serde_json::Value = serde_json::from_str(&std::fs::read_to_string(path).expect("replay")).expect("json");
         let c = &doc["case"];
-        check_input(c["seed"].as_u64().unwrap(), c["idx"].as_u64().unwrap(), &tmp, &mut rep, usize::MAX);
+        check_input_t(c["seed"].as_u64().unwrap(), c["idx"].as_u64().unwrap(), c["template"].as_u64().map(|t| t as usize), &tmp, &mut rep, usize::MAX);
         let _ = std::fs::remove_dir_all(&tmp);
         return rep;
     }
@@ -344,6 +422,12 @@ pub fn run(ctx: &Ctx) -> Report {
     par_for(n_inputs, |i| {
         let mut local = Report::default();
         check_input(seed, i, &tmp, &mut local, budget);
+        acc.with(|r| r.merge(local));
+    });
+    // the hand-written templates: every token position, all six layouts
+    par_for((TEMPLATES.len() * 6) as u64, |i| {
+        let mut local = Report::default();
+        check_input_t(seed, i, Some(i as usize / 6), &tmp, &mut local, usize::MAX);
         acc.with(|r| r.merge(local));
     });
     let _ = std::fs::remove_dir_all(&tmp);
